@@ -16,7 +16,8 @@ RULE = (
     "encoding of its own) produces encrypted configurations for every AES-128/192/256 x HMAC-SHA-1 / HMAC-SHA-1-128 / "
     "HMAC-SHA-256 x PBKDF2-SHA-1/256 combination, rounds 1..2000, salts 8..32 bytes, configuration texts of 0..4 KiB "
     "incl. every length residue mod 16 and texts shorter than one cipher block, unicode passphrases (incl. leading / "
-    "trailing blanks), key safes with several phrase pairs of which only one matches. Positive oracle: after "
+    "trailing blanks), key safes with several phrase pairs of which only one matches, and - in the same process - key safes "
+    "that repeat a locator's id/KDF/cipher/rounds with a different salt. Positive oracle: after "
     "unlock_with_phrase the visible configuration contains every original entry. Fault enumeration: wrong / empty / "
     "near-miss passphrases, and single-byte alterations (at the decoded binary level, so base64 aliasing cannot "
     "create false alarms) of every IV, ciphertext and MAC byte of the wrapped key and of encryption.data (quick: all "
@@ -146,6 +147,29 @@ def run(case: dict, ctx) -> dict:
         lost = [k for k in before if k not in v.attr]
         if lost:
             res["viol"].append({"what": "entries visible before unlock disappeared", "mech": MECH, "detail": {"lost": lost[:3]}})
+    # ---- the same locator parameters (id, KDF, cipher, rounds, passphrase) with other salts, in this same process:
+    # the derived key is a function of the salt too
+    for salt2 in (bytes(rng.randrange(256) for _ in range(len(salt))), salt[:-1] + bytes([salt[-1] ^ 0x01]), salt + b"\x00"):
+        if res["viol"]:
+            break
+        dk2 = bytes(rng.randrange(256) for _ in range(ks))
+        blob2, p2 = w.phrase_pair(rng, phrase, dk2, cipher=cipher, mac=mac, kdf=kdf, rounds=rounds, salt=salt2, ident=p["ident"])
+        data2 = w.seal(dk2, text.encode(), mac, bytes(rng.randrange(256) for _ in range(16)))
+        v3 = VMX.parse(w.vmx_text(w.keysafe_text([w.pair_text(blob2, p2)]), data2, plain_lines))
+        o3 = call(v3.unlock_with_phrase, phrase)
+        cnt["same_locator_other_salt_roundtrips"] = cnt.get("same_locator_other_salt_roundtrips", 0) + 1
+        if not o3.ok or any(v3.attr.get(k_) != val for k_, val in model.items()):
+            res["viol"].append({"what": "a key safe that differs from an earlier one only in its salt does not unlock with the correct passphrase",
+                                "mech": MECH, "detail": {"combo": combo, "salt_len": len(salt2), "outcome": o3.brief()}})
+        # and the earlier file with only the salt replaced (wrapped key unchanged) must not unlock
+        v4 = VMX.parse(w.vmx_text(w.keysafe_text([w.pair_text(blob, dict(p, salt=salt2))]), data_blob, plain_lines))
+        snap4 = copy.deepcopy(v4.attr)
+        o4 = call(v4.unlock_with_phrase, phrase)
+        cnt["tamper_cases"] = cnt.get("tamper_cases", 0) + 1
+        if o4.ok:
+            res["viol"].append({"what": "unlock succeeded although the salt of the key locator was altered", "mech": "vmx.auth", "detail": {"combo": combo}})
+        elif v4.attr != snap4:
+            res["viol"].append({"what": "visible configuration changed although unlock failed", "mech": "vmx.auth", "detail": {"combo": combo}})
     # ---- negative: passphrases
     wrong = ["", phrase + "x", phrase[:-1], phrase.upper() if phrase.upper() != phrase else phrase.lower(), " " + phrase, phrase + " ", phrase + "\n", phrase.strip() if phrase.strip() != phrase else phrase + "\t"]
     for wp in wrong:
